@@ -48,6 +48,35 @@
 use crate::platform::CompiledRegex;
 use crate::prelude::*;
 
+/// ECMAScript ToUint32: truncate toward zero, then wrap modulo 2^32.
+///
+/// A plain `as u32` cast saturates instead of wrapping (`2**32 | 0` must be 0,
+/// not 2147483647), so the conversion is done on the IEEE-754 bit fields.
+pub fn to_uint32(n: f64) -> u32 {
+    let bits = n.to_bits();
+    let exponent = ((bits >> 52) & 0x7ff) as i32 - 1023;
+    // |n| < 1, a multiple of 2^32, or NaN/Infinity (exponent 1024)
+    if !(0..=83).contains(&exponent) {
+        return 0;
+    }
+    let mantissa = (bits & ((1u64 << 52) - 1)) | (1u64 << 52);
+    let magnitude = if exponent <= 52 {
+        (mantissa >> (52 - exponent)) as u32
+    } else {
+        (mantissa as u32) << (exponent - 52)
+    };
+    if (bits >> 63) != 0 {
+        magnitude.wrapping_neg()
+    } else {
+        magnitude
+    }
+}
+
+/// ECMAScript ToInt32: ToUint32 reinterpreted as a signed 32-bit integer.
+pub fn to_int32(n: f64) -> i32 {
+    to_uint32(n) as i32
+}
+
 /// Convert a JavaScript number to its canonical string representation.
 ///
 /// According to ECMAScript spec (7.1.12.1 NumberToString):
